@@ -55,7 +55,8 @@ impl BoundingBox {
 //@end
 //@item src/transform_attr.rs :: impl BoundingBox :: fn xfrm_scale
 //@ ensures
-//@ - bx(r) == (val(self.x1) * val(sx), val(self.y1) * val(sy), val(self.x2) * val(sx), val(self.y2) * val(sy))     @@C08.transform.scale
+//@ - bx(r) == (rmin(val(self.x1) * val(sx), val(self.x2) * val(sx)), rmin(val(self.y1) * val(sy), val(self.y2) * val(sy)),
+//@             rmax(val(self.x1) * val(sx), val(self.x2) * val(sx)), rmax(val(self.y1) * val(sy), val(self.y2) * val(sy)))     @@C08.transform.scale
 //@end
 //@item src/transform_attr.rs :: impl BoundingBox :: fn xfrm_translate
 //@ ensures
@@ -67,7 +68,8 @@ impl BoundingBox {
 pub open spec fn xf_one(t: TransformType, b: (real, real, real, real)) -> (real, real, real, real) {
     match t {
         TransformType::Translate(tx, ty) => (b.0 + val(tx), b.1 + val(ty), b.2 + val(tx), b.3 + val(ty)),
-        TransformType::Scale(sx, sy) => (b.0 * val(sx), b.1 * val(sy), b.2 * val(sx), b.3 * val(sy)),
+        // the bounding box of the scaled box: a negative factor mirrors it, the result is still left <= right, top <= bottom
+        TransformType::Scale(sx, sy) => (rmin(b.0 * val(sx), b.2 * val(sx)), rmin(b.1 * val(sy), b.3 * val(sy)), rmax(b.0 * val(sx), b.2 * val(sx)), rmax(b.1 * val(sy), b.3 * val(sy))),
         _ => b,
     }
 }
